@@ -118,7 +118,10 @@ def handler : Handler := fun op args =>
       let ps ← listOf nat
       let steps ← listOf pStep
       let flav ← listOf word   -- how child i adopts the lock (run | fork | import; `-o`: its Process subclass overrides run() without super().run()): one model step
-      if !(flav.all fun f => f == "run" || f == "fork" || f == "import" || f == "run-o" || f == "fork-o") then failure
+      -- base (run | fork | import) plus modifiers: o = run() overridden, d = daemonic child
+      if !(flav.all fun f => match f.splitOn "-" with
+          | b :: mods => (b == "run" || b == "fork" || b == "import") && mods.all (fun m => m == "o" || m == "d")
+          | [] => false) then failure
       -- optionally: which synchronized function each thread calls at top level (p = probe,
       -- i / w / f = UrwidImageScreen.get_available_raw_input / write / flush) — one model `call`
       let fns ← optList
@@ -152,8 +155,8 @@ def handler : Handler := fun op args =>
       -- optionally: how the child's code is supplied (target | run | runsuper) and whether foreign
       -- wrappers were put on BaseProcess before the import (0 | 1)
       let extra ← optList0
-      if !(extra.all fun w => w == "target" || w == "run" || w == "runsuper" || w == "after" || w == "failfirst" || w == "0" || w == "1") then failure
-      if (m == "fork" || m == "spawn" || m == "forkserver" || m == "mixed") && (h == "default" || h == "ctx") then
+      if !(extra.all fun w => w == "target" || w == "run" || w == "runsuper" || w == "after" || w == "failfirst" || w == "daemon" || w == "pool" || w == "0" || w == "1") then failure
+      if (m == "fork" || m == "spawn" || m == "forkserver" || m == "mixed" || m == "spawn+fork" || m == "forkserver+fork") && (h == "default" || h == "ctx") then
         pure "ok overlaps=0"
       else failure) args
   | _ => none
